@@ -407,6 +407,34 @@ func scenFecStream(r *Run) {
 	targeted := r.Spec.Stratum == "mismatch-targeted"
 	d1, p1 := drawDP(t, cs, small || targeted)
 	d2, p2 := d1, p1
+	if mismatch && t.Chance("cfg-rel", 350) {
+		// related pairs, where a comparison of the wrong two numbers hides: same
+		// data count, same parity count, same sum split differently, swapped,
+		// equal counts at the sender (a stream of its own: older tapes keep their meaning)
+		const cr = "cfg-rel"
+		lim := 255
+		if small || targeted {
+			lim = 8
+		}
+		switch t.Choose(cr, 5) {
+		case 0:
+			d2, p2 = d1, 1+t.Choose(cr, min(lim-d1, 254))
+		case 1:
+			d2, p2 = 1+t.Choose(cr, min(lim-p1, 254)), p1
+		case 2:
+			if sum := d1 + p1; sum > 2 {
+				d2 = 1 + t.Choose(cr, sum-1)
+				p2 = sum - d2
+			}
+		case 3:
+			d2, p2 = p1, d1
+		default:
+			k := 1 + t.Choose(cr, min(lim/2, 127))
+			d1, p1, d2 = k, k, k
+			p2 = 1 + t.Choose(cr, min(lim-k, 254))
+		}
+		s.Stats.Probe("related-ratio-pair")
+	}
 	if mismatch {
 		for tries := 0; d2 == d1 && p2 == p1; tries++ {
 			d2, p2 = drawDP(t, cs, small || targeted)
